@@ -258,7 +258,9 @@ func (g *gen) genStatement(o string, typ types.Type) error {
 			return err
 		}
 		p.P("h = 31*h + %s", keyStr)
-		valStr, err := g.field(o+"[k]", ttyp.Elem())
+		// the value is copied to a variable, since a method with a pointer receiver cannot be called on a map element.
+		p.P("v := %s[k]", o)
+		valStr, err := g.field("v", ttyp.Elem())
 		if err != nil {
 			return err
 		}
